@@ -125,6 +125,13 @@ CHECKS = {
             "strict and permissive), junk inside embedded objects / extensions / members, bundle members and container entries lacking what dispatch inspects, odd custom member names, nesting to 800 levels, and all C02 corruptions "
             "are parsed / constructed; whatever escapes must be a STIXError, ValueError or TypeError, successes in strict mode must be valid (C02), and failed constructions / registrations / store additions must leave registries and stores unchanged.",
             "Trusted: the frozen model spec/frozen/model2x.json (bootstrapped from the pinned commit, audited by hand, see AUDIT.md) with lenient entries creating no obligation; the lexer states leaf facts only; byte-level JSON is simplejson's.", "DESIGN.md §3.13"),
+    "C13": ("frame", "TLA+ heap model with the frame condition as an action property (NoMutation), checked by TLC; TLC-simulated behaviours of abstract operations replayed through ~120 public calls with deep before/after snapshots; trace validation; catalogue pass applying every call twice to the same input",
+            "TLC checks on spec/Frame.tla that no library step changes an existing heap cell, that objects stay put, and (negative config) that an in-place 'new version' is caught. Behaviours generated by TLC "
+            "(caller_makes / caller_mutates / construct / new_version / deepcopy / gather / assign_refused, with the cells and objects they touch) are replayed on the library: every abstract step is realised by one of the "
+            "public calls (constructors, parse, parse_observable, Bundle in every positional form, stores, factory, environment, versioning and marking functions on objects and dictionaries, serialization, deepcopy, "
+            "setattr/delattr/item assignment) on nested argument shapes of both spec versions; snapshots of all arguments, all earlier objects, the shared TLP constants and similarity weights are compared by the trace spec.",
+            "Trusted: the snapshot function (container kinds, list order, dictionary content, leaf types; key order ignored). Stores/sinks/factories are receivers that change by design. Outside the catalogue and the generated shapes nothing is claimed; object similarity needs rapidfuzz (absent) and only its error path runs.",
+            "DESIGN.md §3.14"),
 }
 
 NOT_YET = {}
